@@ -52,8 +52,6 @@ ASSUMPTIONS = [
     "is read off them",
 ]
 
-META_NAMES = {0x51: "tempo", 0x03: "name", 0x58: "timesig", 0x59: "keysig", 0x2F: "eot"}
-
 
 # ---------------------------------------------------------------------------------------
 # oracle on one file
@@ -113,8 +111,14 @@ def check_bytes(site, data, per_track_timelines, bpm):
 
 
 def written(path):
+    """Bytes of the file the writer produced (None when it produced none); the file is removed so
+    that a later writer call in the same directory cannot be credited with it."""
+    if not os.path.exists(path):
+        return None
     with open(path, "rb") as fh:
-        return fh.read()
+        data = fh.read()
+    os.remove(path)
+    return data
 
 
 # ---------------------------------------------------------------------------------------
@@ -170,10 +174,10 @@ def run_program(case):
                 raise engine.HarnessError("unknown api %r" % api)
             S.trans(1)
             site = "write_%s" % api.capitalize()
-            if ok is not True:
-                S.problem(site + " return value", True, ok)
-                continue
             data = written(path)
+            if data is None:
+                S.problem(site + " wrote no file", "a MIDI file", {"returned": ok})
+                continue
             check_bytes(site, data, per_track, bpm)
             S.outcome(zlib.crc32(data))
             S.count("programs_written")
@@ -210,10 +214,10 @@ def run_standalone(case):
             ok = MFO.write_NoteContainer(path, obj, bpm, repeat)
             site = "write_NoteContainer"
         S.trans(1)
-        if ok is not True:
-            S.problem(site + " return value", True, ok)
-            return
         data = written(path)
+        if data is None:
+            S.problem(site + " wrote no file", "a MIDI file", {"returned": ok})
+            return
     tl = TL.Timeline()
     for _ in range(repeat + 1):
         tl.play_standalone(score)
